@@ -488,7 +488,71 @@ def rule_Q4(ctx) -> None:
                     "M().from_json('{\"d\": \"-1.500s\"}')")
     else:
         ctx.proved("Q4", "duration-parser:negative-durations", mod.loc(fdi))
+    rule_Q4d(ctx, sites)
     rule_Q4c(ctx)
+
+
+Q4D_INPUTS = ["0s", "1s", "-1s", "1.500s", "-1.500s", "-0.500s", "0.250s", "-3.000001s", "3.000001s", "+2.5s", "-0s", "-10.010s", "7200.000s", "-0.000001s", "12.345678s"]
+
+
+def rule_Q4d(ctx, sites) -> None:
+    """the parser of the Duration JSON text, evaluated at distinguished inputs (both signs, with and without a whole part, with
+    and without a fraction): the path each input takes is selected with the analyser's evaluator of symbolic terms and the
+    returned timedelta compared with the decimal value of the text"""
+    import datetime as _dt
+    from decimal import Decimal
+    from .. import concrete
+    mod = ctx.repo.mod(M_INIT)
+    done = 0
+    for fn in sites:
+        params = [a.arg for a in fn.args.args if a.arg not in ("self", "cls")]
+        if len(params) != 1 or fn.args.kwonlyargs and any(d is None for d in fn.args.kw_defaults):
+            continue
+        if not any(isinstance(n, ast.Call) and ast.unparse(n.func) in ("timedelta", "datetime.timedelta") for n in ast.walk(fn)):
+            continue
+        paths = Interp(mod, fork_ifexp=True).run(fn)
+        ctx.count(len(paths))
+        done += 1
+        bad, unknown = None, None
+        for text in Q4D_INPUTS:
+            env = {params[0]: text}
+            sel = []
+            why = None
+            for p in paths:
+                try:
+                    if all(bool(concrete.ev(k, env)) == bool(v) for k, v in p.valuation.items()):
+                        sel.append(p)
+                except concrete.Unknown as e:
+                    why = str(e)
+                    break
+            if why is not None or len(sel) != 1:
+                unknown = unknown or f"{text!r}: {why or str(len(sel)) + ' paths selected'}"
+                continue
+            p = sel[0]
+            if p.outcome != "return" or p.value is None:
+                bad = bad or (text, f"<{p.outcome}>")
+                continue
+            try:
+                got = concrete.ev(p.value, env)
+            except concrete.Unknown as e:
+                unknown = unknown or f"{text!r}: result not evaluable ({e})"
+                continue
+            want = _dt.timedelta(microseconds=int(Decimal(text[:-1]) * 10 ** 6))
+            if got != want:
+                bad = bad or (text, got)
+        q = next((k for k, v in mod.defs.items() if any(x is fn or getattr(x, "_vt_origin", None) is fn or x is getattr(fn, "_vt_origin", None) for x in v)), fn.name)
+        name = f"{q}:distinguished-inputs"
+        if bad:
+            text, got = bad
+            want = _dt.timedelta(microseconds=int(Decimal(text[:-1]) * 10 ** 6))
+            ctx.refuted("Q4", name, f"{text}->{got}", mod.loc(fn), f"the Duration text {text!r} is parsed to {got!r} ({getattr(got, 'total_seconds', lambda: '?')()} s); its value is {want.total_seconds()} s: "
+                        "the sign of the text must apply to the whole and the fractional part alike", f"M().from_json('{{\"d\": \"{text}\"}}')")
+        elif unknown:
+            ctx.inconclusive("Q4", name, unknown[:300], mod.loc(fn))
+        else:
+            ctx.proved("Q4", name, mod.loc(fn), f"{len(Q4D_INPUTS)} inputs over {len(paths)} paths")
+    if not done:
+        ctx.notes.append("Q4d: the Duration text parser is not a one-argument function; distinguished inputs not evaluated (structural Q4 clauses apply)")
 
 
 def _duration_text_sites(mod) -> List[ast.AST]:
